@@ -43,10 +43,10 @@ Definition min_e : expr := ECond (EBin OLt I32 (ELocal 11) xrow_ld) (ELocal 11) 
 Definition clamp : stmt := SExpr (ESetLocal 11 (ECond (EBin OLt I32 (EConst 0) min_e) min_e (EConst 0))).
 Definition find_e : expr :=
   ECall X_rstr_find [ELocal 4; ELocal 12; ECast I32 (EBin ODiv U64 (EBin ODiv U64 (EConst 128) (EConst 4)) (ECast U64 (EConst 2))); ELocal 5; EConst 0].
-Definition exec_if : stmt := SIf (ECall X_ex_exec [ELoad None (ELocal 10)]) SBreak SSkip.
-Definition set_xrow : stmt := SExpr (EStore (Some I32) (EGlob G_xrow) (ELocal 11)).
+Definition run_if : stmt := SIf (ECall X_ex_exec [ELoad None (ELocal 10)]) SBreak SSkip.
+Definition store_xrow : stmt := SExpr (EStore (Some I32) (EGlob G_xrow) (ELocal 11)).
 Definition visit_if : stmt :=
-  SIf (EBin OEq I32 (EBin OLt I32 find_e (EConst 0)) (ELocal 8)) (SSeq set_xrow (SSeq exec_if clamp)) SSkip.
+  SIf (EBin OEq I32 (EBin OLt I32 find_e (EConst 0)) (ELocal 8)) (SSeq store_xrow (SSeq run_if clamp)) SSkip.
 Definition get_ln : stmt := SExpr (ESetLocal 12 (ECall F_lbuf_get [xb_call; ELocal 11])).
 Definition visit_body : stmt := SSeq get_ln (SSeq visit_if scan_loop).
 Definition visit_loop : stmt := SWhile in_buf visit_body.
@@ -393,5 +393,201 @@ Section Loops.
       replace (Z.of_nat i + 1) with (Z.of_nat (S i)) by lia. rewrite E2. rewrite len_gget.
       rewrite upd_upd by (apply (mrep_bg_lt _ _ _ _ _ R)). split; [reflexivity|].
       rewrite upd_upd in R2 by (apply (mrep_bg_lt _ _ _ _ _ R)). exact R2.
+  Qed.
+
+  (* ------------------------------------------------------------------ the visit loop *)
+  (* a memory that represents a model state: SOME line buffer behind bufs[0].lb with the state's lines and marks (the blocks are
+     existential: ex_exec may have re-allocated all of them), fewer than B lines, xrow and xgdep in their global cells *)
+  Variable B : nat.
+  Hypothesis Hnx : ~ In G_xrow fr.
+  Hypothesis Hng : ~ In G_xgdep fr.
+  Hypothesis Hb10 : In b10 fr.
+  Definition keeps (m m' : mem) : Prop := forall b, In b fr -> nth_error m' b = nth_error m b.
+  Definition st_rep (m : mem) (s : ExDefs.st) : Prop :=
+    (exists y gblk, mrep keep y gblk m (LB (ExDefs.lb s))) /\ (length (LB (ExDefs.lb s)) < B)%nat /\
+    cell_at m G_xrow (ExDefs.xrow s) /\ i32 (ExDefs.xrow s) /\ cell_at m G_xgdep (Z.of_nat (ExDefs.xgdep s)).
+  Lemma keeps_refl m : keeps m m.
+  Proof. intros b _. reflexivity. Qed.
+  Lemma keeps_trans m1 m2 m3 : keeps m1 m2 -> keeps m2 m3 -> keeps m1 m3.
+  Proof. intros H1 H2 b Hb. rewrite (H2 b Hb). apply H1. exact Hb. Qed.
+  Lemma keeps_marks y gblk m L gblk' : mrep keep y gblk m L -> keeps m (upd m (y_bg y) gblk').
+  Proof. intros R b Hb. apply (keep_other keep y gblk m L b R (keep_fr _ Hb)). Qed.
+  Lemma gx_ne : G_xgdep <> G_xrow.
+  Proof. unfold G_xgdep, G_xrow. lia. Qed.
+
+  (* the oracles.  rfind / mexec / pat / body: the model's matcher, executor, pattern and command list; bs os: the pointer in `s` *)
+  Variable rfind : bytes -> bytes -> bool -> option (nat * nat).
+  Variable mexec : bytes -> ExDefs.st -> ExDefs.st * Z.
+  Variables pat body : bytes.
+  Variable bs : nat.
+  Variable os : Z.
+  Definition hit_of (x : ExDefs.line) : bool := match rfind pat (ExDefs.ltxt x) false with Some _ => true | None => false end.
+  (* rstr_find(re, ln, 16, offs, 0) on the line pointer of row i: negative exactly when the model's matcher finds nothing; the memory
+     afterwards represents the same state (it writes offs[]) and ec_glob's frame is untouched *)
+  Hypothesis Hfind : forall m s y gblk i x p o, st_rep m s -> mrep keep y gblk m (LB (ExDefs.lb s)) ->
+    nth_error (LB (ExDefs.lb s)) i = Some x -> nth_error (y_lnblk y) i = Some (VPtr p o) ->
+    exists r m', call X_rstr_find [VPtr bre 0; VPtr p o; VInt 16; VPtr b5 0; VInt 0] m = Ok (VInt r, m') /\ i32 r /\
+                 (r <? 0) = negb (hit_of x) /\ st_rep m' s /\ keeps m m'.
+  (* THE SIMULATION HYPOTHESIS for the command-list executor: from a memory that represents s, ex_exec(s) returns r and leaves a
+     memory that represents the model executor's state, r = 0 exactly when the model's result is 0; ec_glob's frame is untouched *)
+  Hypothesis Hexec : forall m s, st_rep m s ->
+    exists r m', call X_ex_exec [VPtr bs os] m = Ok (VInt r, m') /\ (r =? 0) = (snd (mexec body s) =? 0) /\
+                 st_rep m' (fst (mexec body s)) /\ keeps m m'.
+  (* the model's executor gives the nesting depth back (for ExDefs.ex_exec: GlobNest.any_list_pres / C15_any_command_list_tracks) *)
+  Hypothesis Hgd : forall s, ExDefs.xgdep (fst (mexec body s)) = ExDefs.xgdep s.
+
+  Lemma exec_get_ln y gblk m L i p o ln fuel : mrep keep y gblk m L -> (i < length L)%nat -> nth_error (y_lnblk y) i = Some (VPtr p o) ->
+    exec call fuel get_ln (ST (Z.of_nat i) ln m) = ONormal (ST (Z.of_nat i) (VPtr p o) m).
+  Proof.
+    intros R Hi Hp. pose proof R as (A1 & A2 & A3 & A4 & A5 & A6 & A7 & A8 & _).
+    unfold get_ln. rewrite exec_expr. cbn [eval bind]. rewrite (eval_xb y gblk m L _ ln R). cbn [bind].
+    cbn [eval get_local locals ST nth_error bind memm].
+    rewrite (Hc_get m _ _ _ _ _ (Z.of_nat i) p o A3 A5 A6 A7 A8 ltac:(lia) ltac:(rewrite Nat2Z.id; exact Hp)). reflexivity.
+  Qed.
+  Lemma b2z_eqb a b : (b2z a =? b2z b) = Bool.eqb a b.
+  Proof. destruct a, b; reflexivity. Qed.
+  Lemma eval_find_cond m p o r m1 i : call X_rstr_find [VPtr bre 0; VPtr p o; VInt 16; VPtr b5 0; VInt 0] m = Ok (VInt r, m1) -> i32 r ->
+    eval call (EBin OEq I32 (EBin OLt I32 find_e (EConst 0)) (ELocal 8)) (ST i (VPtr p o) m)
+    = Ok (VInt (b2z (Bool.eqb (r <? 0) nt)), ST i (VPtr p o) m1).
+  Proof.
+    intros E Hr.
+    unfold find_e. set (c16 := ECast I32 (EBin ODiv U64 (EBin ODiv U64 (EConst 128) (EConst 4)) (ECast U64 (EConst 2)))).
+    assert (E16 : forall st, eval call c16 st = Ok (VInt 16, st)) by (intro; reflexivity).
+    cbn [eval bind get_local locals ST nth_error]. rewrite E16. cbn [bind eval get_local locals ST nth_error memm].
+    rewrite E. cbn [bind as_int arith locals get_local nth_error]. rewrite b2z_eqb. reflexivity.
+  Qed.
+  Lemma exec_store_xrow m i lnv v fuel : cell_at m G_xrow v -> i32 i ->
+    exec call fuel store_xrow (ST i lnv m) = ONormal (ST i lnv (upd m G_xrow [VInt i])).
+  Proof.
+    intros Hc Hi. unfold store_xrow. rewrite exec_expr. cbn [eval bind get_local locals ST nth_error memm].
+    rewrite (wrap_i32 i Hi). rewrite (store_cell m G_xrow v i Hc). reflexivity.
+  Qed.
+  Lemma exec_clamp m i lnv xr fuel : cell_at m G_xrow xr -> i32 xr ->
+    exec call fuel clamp (ST i lnv m) = ONormal (ST (Z.max 0 (Z.min i xr)) lnv m).
+  Proof.
+    intros Hc Hx. unfold clamp, min_e, xrow_ld. rewrite exec_expr. cbn [eval bind get_local locals ST nth_error memm].
+    rewrite (load_cell m G_xrow xr Hc). cbn [bind]. rewrite (wrap_i32 xr Hx). cbn [as_int bind arith truth].
+    destruct (Z.ltb_spec i xr); cbn [b2z Z.eqb negb eval bind get_local locals ST nth_error memm as_int arith truth];
+      rewrite ?(load_cell m G_xrow xr Hc); cbn [bind]; rewrite ?(wrap_i32 xr Hx); cbn [bind as_int arith truth].
+    - destruct (Z.ltb_spec 0 i); cbn [b2z Z.eqb negb eval bind get_local locals ST nth_error memm truth].
+      + destruct (Z.ltb_spec i xr); [|lia]. cbn [b2z Z.eqb negb truth eval bind get_local locals ST nth_error set_local set_nth memm].
+        replace (Z.max 0 (Z.min i xr)) with i by lia. reflexivity.
+      + cbn [set_local set_nth locals ST memm bind]. replace (Z.max 0 (Z.min i xr)) with 0 by lia. reflexivity.
+    - destruct (Z.ltb_spec 0 xr); cbn [b2z Z.eqb negb eval bind get_local locals ST nth_error memm truth].
+      + rewrite (load_cell m G_xrow xr Hc). cbn [bind]. rewrite (wrap_i32 xr Hx). cbn [bind as_int arith truth].
+        destruct (Z.ltb_spec i xr); [lia|]. cbn [b2z Z.eqb negb truth eval bind get_local locals ST nth_error set_local set_nth memm].
+        rewrite (load_cell m G_xrow xr Hc). cbn [bind]. rewrite (wrap_i32 xr Hx). cbn [bind set_local set_nth locals memm].
+        replace (Z.max 0 (Z.min i xr)) with xr by lia. reflexivity.
+      + cbn [set_local set_nth locals ST memm bind]. replace (Z.max 0 (Z.min i xr)) with 0 by lia. reflexivity.
+  Qed.
+
+  Lemma load_ptr_cell (m : mem) b v : nth_error m b = Some [v] -> load m b 0 = Ok v.
+  Proof. intro H. unfold load. rewrite H. reflexivity. Qed.
+  Lemma eval_exec_call m i lnv r m' : nth_error m b10 = Some [VPtr bs os] -> call X_ex_exec [VPtr bs os] m = Ok (VInt r, m') ->
+    eval call (ECall X_ex_exec [ELoad None (ELocal 10)]) (ST i lnv m) = Ok (VInt r, ST i lnv m').
+  Proof.
+    intros H E. cbn [eval bind get_local locals ST nth_error memm]. rewrite (load_ptr_cell m b10 _ H). cbn [bind memm ST locals eval]. rewrite E. reflexivity.
+  Qed.
+  Lemma mrep_len_eq y g1 m1 L1 g2 m2 L2 : mrep keep y g1 m1 L1 -> mrep keep y g2 m2 L2 -> length L1 = length L2.
+  Proof.
+    intros (_ & _ & _ & _ & A5 & _) (_ & _ & _ & _ & A5' & _). rewrite A5 in A5'. injection A5' as E. lia.
+  Qed.
+  (* the marks of the represented buffer changed (scan): the state with the new lines is represented *)
+  Lemma st_rep_marks m s y gblk gblk' l : st_rep m s -> mrep keep y gblk m (LB (ExDefs.lb s)) ->
+    mrep keep y gblk' (upd m (y_bg y) gblk') (LB l) -> st_rep (upd m (y_bg y) gblk') (ExDefs.set_lb s l).
+  Proof.
+    intros (_ & HB & Hx & Hxi & Hg) R R'. unfold st_rep. cbn [ExDefs.set_lb ExDefs.lb ExDefs.xrow ExDefs.xgdep].
+    split; [exists y, gblk'; exact R'|]. split; [rewrite <- (mrep_len_eq _ _ _ _ _ _ _ R R'); exact HB|].
+    unfold cell_at. rewrite (keep_other keep y gblk m _ G_xrow R keep_xrow), (keep_other keep y gblk m _ G_xgdep R keep_gdep).
+    split; [exact Hx|]. split; [exact Hxi|exact Hg].
+  Qed.
+  Lemma zofN_nat n : Z.of_N (N.of_nat n) = Z.of_nat n.
+  Proof. lia. Qed.
+
+  (* the scan from any position of a represented state *)
+  Lemma scan_from m s i lnv fuel : st_rep m s -> dep = N.of_nat (ExDefs.xgdep s) -> (B <= fuel)%nat ->
+    exists iC m', exec call (S fuel) scan_loop (ST (Z.of_nat i) lnv m) = ONormal (ST iC lnv m') /\
+      st_rep m' (ExDefs.set_lb s (snd (ExDefs.glob_scan i dep (ExDefs.lb s)))) /\ keeps m m' /\
+      (iC = Z.of_nat (fst (ExDefs.glob_scan i dep (ExDefs.lb s))) \/
+       (Z.of_nat (length (LB (ExDefs.lb s))) <= iC /\ (length (LB (ExDefs.lb s)) <= fst (ExDefs.glob_scan i dep (ExDefs.lb s)))%nat)).
+  Proof.
+    intros S0 Hd Hf. pose proof S0 as ((y & gblk & R) & HB & Hx & Hxi & Hg).
+    assert (Hg' : cell_at m G_xgdep (Z.of_N dep)) by (rewrite Hd, zofN_nat; exact Hg).
+    destruct (Nat.le_gt_cases i (length (LB (ExDefs.lb s)))) as [Hi|Hi].
+    - destruct (scan_loop_ok y (length (LB (ExDefs.lb s)) - i)%nat i (ExDefs.lb s) gblk m lnv (S fuel) R Hg' ltac:(lia) ltac:(lia)) as (g' & E & R').
+      exists (Z.of_nat (fst (ExDefs.glob_scan i dep (ExDefs.lb s)))), (upd m (y_bg y) g'). split; [exact E|].
+      split; [apply (st_rep_marks m s y gblk g' _ S0 R R')|]. split; [apply (keeps_marks y gblk m _ g' R)|]. left. reflexivity.
+    - exists (Z.of_nat i), m. split; [apply (scan_loop_out y gblk m (LB (ExDefs.lb s))); [exact R|lia]|].
+      unfold ExDefs.glob_scan. fold (LB (ExDefs.lb s)). rewrite (scan_l_unfold dep (LB (ExDefs.lb s)) i).
+      assert (E : nth_error (LB (ExDefs.lb s)) i = None) by (apply nth_error_None; lia). rewrite E. cbn [fst snd].
+      split; [|split; [apply keeps_refl|right; split; lia]].
+      destruct S0 as (S1 & S2). split; [exact S1|exact S2].
+  Qed.
+
+  (* ---- (4) one visit: ln = lbuf_get(xb, i); if ((rstr_find(...) < 0) == not) { xrow = i; if (ex_exec(s)) break; i = MAX(0, MIN(i, xrow)); } scan *)
+  Lemma visit_step m s iM x ln fuel : st_rep m s -> dep = N.of_nat (ExDefs.xgdep s) -> nth_error (LB (ExDefs.lb s)) iM = Some x ->
+    nth_error m b10 = Some [VPtr bs os] -> (B <= fuel)%nat ->
+    let run := Bool.eqb (negb (hit_of x)) nt in
+    let s1 := if run then fst (mexec body (ExDefs.set_xrow s (Z.of_nat iM))) else s in
+    let r := if run then snd (mexec body (ExDefs.set_xrow s (Z.of_nat iM))) else 0 in
+    let i1 := if run then Z.to_nat (Z.min (Z.of_nat iM) (ExDefs.xrow s1)) else iM in
+    if run && negb (r =? 0) then
+      exists lnv m', exec call (S fuel) visit_body (ST (Z.of_nat iM) ln m) = OBreak (ST (Z.of_nat iM) lnv m') /\ st_rep m' s1 /\ keeps m m'
+    else
+      exists iC lnv m', exec call (S fuel) visit_body (ST (Z.of_nat iM) ln m) = ONormal (ST iC lnv m') /\
+        st_rep m' (ExDefs.set_lb s1 (snd (ExDefs.glob_scan i1 dep (ExDefs.lb s1)))) /\ keeps m m' /\
+        (iC = Z.of_nat (fst (ExDefs.glob_scan i1 dep (ExDefs.lb s1))) \/
+         (Z.of_nat (length (LB (ExDefs.lb s1))) <= iC /\ (length (LB (ExDefs.lb s1)) <= fst (ExDefs.glob_scan i1 dep (ExDefs.lb s1)))%nat)).
+  Proof.
+    intros S0 Hd Hx Hs Hf. pose proof S0 as ((y & gblk & R) & HB & Hxr & Hxi & Hg).
+    assert (HiM : (iM < length (LB (ExDefs.lb s)))%nat) by (apply nth_error_Some; congruence).
+    pose proof R as (_ & _ & _ & _ & _ & _ & _ & _ & A9 & _). destruct (A9 iM HiM) as (p & o & Hp).
+    destruct (Hfind m s y gblk iM x p o S0 R Hx Hp) as (rf & m1 & Ef & Hrf & Hsign & S1 & K1).
+    assert (Hs1 : nth_error m1 b10 = Some [VPtr bs os]) by (rewrite (K1 b10 Hb10); exact Hs).
+    assert (Hi32 : i32 (Z.of_nat iM)) by (destruct R as (_ & _ & _ & _ & _ & A6 & _); unfold i32 in *; lia).
+    assert (Ehead : forall rest, exec call (S fuel) (SSeq get_ln (SSeq visit_if rest)) (ST (Z.of_nat iM) ln m) =
+              match (if Bool.eqb (negb (hit_of x)) nt then exec call (S fuel) (SSeq store_xrow (SSeq run_if clamp)) (ST (Z.of_nat iM) (VPtr p o) m1)
+                     else ONormal (ST (Z.of_nat iM) (VPtr p o) m1)) with
+              | ONormal st1 => exec call (S fuel) rest st1 | o => o end).
+    { intro rest. rewrite exec_seq. rewrite (exec_get_ln y gblk m _ iM p o ln (S fuel) R HiM Hp).
+      rewrite exec_seq. unfold visit_if. rewrite exec_if. rewrite (eval_find_cond m p o rf m1 _ Ef Hrf). rewrite truth_b2z. rewrite Hsign.
+      destruct (Bool.eqb (negb (hit_of x)) nt); [reflexivity|]. rewrite exec_skip. reflexivity. }
+    cbv zeta. unfold visit_body. destruct (Bool.eqb (negb (hit_of x)) nt) eqn:Erun; cbn [andb].
+    - (* the command list runs *)
+      pose proof S1 as (_ & _ & Hxr1 & _ & Hg1).
+      assert (Hlt : (G_xrow < length m1)%nat) by (apply nth_error_Some; unfold cell_at in Hxr1; congruence).
+      set (m2 := upd m1 G_xrow [VInt (Z.of_nat iM)]).
+      assert (S2 : st_rep m2 (ExDefs.set_xrow s (Z.of_nat iM))).
+      { destruct S1 as ((y1 & g1 & R1) & HB1 & _ & _ & _). unfold st_rep. cbn [ExDefs.set_xrow ExDefs.lb ExDefs.xrow ExDefs.xgdep].
+        split; [exists y1, g1; apply mrep_other; [exact R1|apply keep_xrow|exact Hlt]|]. split; [exact HB1|].
+        split; [apply cell_at_upd_same; exact Hlt|]. split; [exact Hi32|]. apply cell_at_upd_other; [exact Hlt|apply gx_ne|exact Hg1]. }
+      assert (K2 : keeps m1 m2).
+      { intros b Hb. unfold m2. apply mem_upd_other; [exact Hlt|]. intro E. subst b. exact (Hnx Hb). }
+      assert (Hs2 : nth_error m2 b10 = Some [VPtr bs os]) by (rewrite (K2 b10 Hb10); exact Hs1).
+      destruct (Hexec m2 _ S2) as (re & m3 & Ee & Hre & S3 & K3).
+      assert (Erun2 : exec call (S fuel) (SSeq store_xrow (SSeq run_if clamp)) (ST (Z.of_nat iM) (VPtr p o) m1) =
+                match (if re =? 0 then ONormal (ST (Z.of_nat iM) (VPtr p o) m3) else OBreak (ST (Z.of_nat iM) (VPtr p o) m3)) with
+                | ONormal st1 => exec call (S fuel) clamp st1 | o => o end).
+      { rewrite exec_seq. rewrite (exec_store_xrow m1 _ (VPtr p o) _ (S fuel) Hxr1 Hi32). fold m2.
+        rewrite exec_seq. unfold run_if. rewrite exec_if. rewrite (eval_exec_call m2 _ (VPtr p o) re m3 Hs2 Ee).
+        cbn [truth]. destruct (re =? 0); cbn [negb]; [rewrite exec_skip|rewrite exec_break]; reflexivity. }
+      rewrite Hre in Erun2.
+      destruct (snd (mexec body (ExDefs.set_xrow s (Z.of_nat iM))) =? 0) eqn:Er; cbn [negb].
+      + (* the command list succeeded: clamp and scan *)
+        pose proof S3 as (_ & _ & Hxr3 & Hxi3 & _).
+        rewrite (exec_clamp m3 _ (VPtr p o) _ (S fuel) Hxr3 Hxi3) in Erun2.
+        set (s1 := fst (mexec body (ExDefs.set_xrow s (Z.of_nat iM)))) in *.
+        replace (Z.max 0 (Z.min (Z.of_nat iM) (ExDefs.xrow s1))) with (Z.of_nat (Z.to_nat (Z.min (Z.of_nat iM) (ExDefs.xrow s1)))) in Erun2 by lia.
+        assert (Hd1 : dep = N.of_nat (ExDefs.xgdep s1)) by (unfold s1; rewrite Hgd; exact Hd).
+        destruct (scan_from m3 s1 (Z.to_nat (Z.min (Z.of_nat iM) (ExDefs.xrow s1))) (VPtr p o) fuel S3 Hd1 Hf) as (iC & m4 & E4 & S4 & K4 & J4).
+        exists iC, (VPtr p o), m4. split; [rewrite Ehead, Erun2; exact E4|]. split; [exact S4|]. split; [|exact J4].
+        apply (keeps_trans m m1 m4 K1). apply (keeps_trans m1 m2 m4 K2). apply (keeps_trans m2 m3 m4 K3 K4).
+      + (* it failed: break *)
+        exists (VPtr p o), m3. split; [rewrite Ehead, Erun2; reflexivity|]. split; [exact S3|].
+        apply (keeps_trans m m1 m3 K1). apply (keeps_trans m1 m2 m3 K2 K3).
+    - (* the line is passed over: scan from i *)
+      destruct (scan_from m1 s iM (VPtr p o) fuel S1 Hd Hf) as (iC & m4 & E4 & S4 & K4 & J4).
+      exists iC, (VPtr p o), m4. split; [rewrite Ehead; exact E4|]. split; [exact S4|]. split; [|exact J4].
+      apply (keeps_trans m m1 m4 K1 K4).
   Qed.
 End Loops.
